@@ -33,7 +33,27 @@ def install():
             cur.new_part(self)
     Part.__init__ = init
     B.install_shim()
+    import simprocesd.model.simulation as sim
+    ev_init = sim.Event.__init__
+
+    def einit(self, *a, **kw):
+        ev_init(self, *a, **kw)
+        cur = _state['cur']
+        if cur is not None and cur.fixed is not None:
+            # tie-break choices held fixed: the weight depends on the creation index among the
+            # non-TERMINATE events only, so splitting a run does not shift the choices
+            if self.asset_id == -1 and getattr(self.action, '__name__', '') == '_terminate':
+                self.random_weight = 0.5
+            else:
+                cur.nfix += 1
+                self.random_weight = _fixed_weight(cur.fixed, cur.nfix)
+    sim.Event.__init__ = einit
     _state['installed'] = True
+
+
+def _fixed_weight(seed, i):
+    import random
+    return random.Random(seed * 1000003 + i).random()
 
 
 def tk(x, what='time'):
@@ -66,13 +86,18 @@ class ScriptAct:
 
 
 class FloorTracer:
-    def __init__(self, tid, cfg, seed=0, light=False):
+    def __init__(self, tid, cfg, seed=0, light=False, fixed=None, id_offset=0):
         install()
         import simprocesd.model.simulation as sim
         from simprocesd.model.factory_floor import Batch, Part
         self.sim = sim
         self.Batch, self.Part = Batch, Part
         _state['cur'] = self
+        self.fixed = fixed
+        self.nfix = 0
+        if id_offset:
+            from simprocesd.model.factory_floor.asset import Asset
+            Asset._id_counter += id_offset
         B._shim.seed(seed)
         self.tid = tid
         self.cfg = cfg
@@ -283,7 +308,8 @@ class FloorTracer:
     def log(self, ev, cfgline=False):
         ev.setdefault('occ', [])
         ev.setdefault('sd', [])
-        ev.setdefault('recs', [])
+        if 'recs' not in ev:
+            ev['recs'] = self.new_recs() if self.k > 0 else []
         ev['vh'] = self.new_vh()
         line = {'tid': self.tid, 'k': self.k, 'ev': ev, 'st': self.project()}
         if cfgline:
@@ -399,12 +425,12 @@ class FloorTracer:
                     self.occs, self.sdlog = [], []
 
 
-def run_cfg(tid, cfg, seed=0, max_steps=20000, light=True, force=None):
+def run_cfg(tid, cfg, seed=0, max_steps=20000, light=True, force=None, fixed=None, id_offset=0):
     """Returns (lines, error).  A run that does not return within max_steps events is reported."""
     tr = None
     err = None
     try:
-        tr = FloorTracer(tid, cfg, seed, light)
+        tr = FloorTracer(tid, cfg, seed, light, fixed=fixed, id_offset=id_offset)
         tr.force = force
         env = tr.env
         inner = env.step
